@@ -2,13 +2,14 @@
 Python audit hook, with before/after comparison of the inputs and the parsed tree; values must be plain data."""
 import ast
 import copy
+import json
 import sys
 import types
 from datetime import date, datetime
 
 from oracle_lib import Oracle
 
-import difflib  # noqa: F401  (tally imports these lazily; load them before the audit hook is armed)
+import difflib  # noqa: F401  (loaded before the audit hook is armed in THIS process; the fresh-process check below runs without such help)
 import statistics  # noqa: F401
 
 from tally import expr_parser as ep
@@ -199,7 +200,51 @@ def run_section(expr):
         O.fail('C03.section_non_data_value', w, 'plain data or ExpressionError', repr(outcome[1])[:200])
 
 
+FRESH = r"""
+import sys, json
+from tally import expr_parser as ep, merchant_engine
+from datetime import date
+exprs = json.loads(sys.argv[1])
+trees = [ep.parse_expression(e) for e in exprs]
+events = []
+def hook(event, args):
+    if event in ('import', 'open', 'exec', 'compile', 'os.system', 'subprocess.Popen'):
+        events.append([event, str(args[0])[:80] if args else ''])
+sys.addaudithook(hook)
+txn = {'description': 'STARBUCKS STORE 12', 'amount': 5.0, 'date': date(2025, 1, 2), 'field': {'memo': 'x'}, 'source': 'S'}
+for t in trees:
+    try:
+        ep.evaluate_transaction_ast(t, txn, data_sources={'orders': [{'item': 'a', 'amount': 5.0}]})
+    except ep.ExpressionError:
+        pass
+print(json.dumps(events))
+"""
+
+
+def check_fresh_process():
+    """every documented function evaluated in a process that has only imported the package: evaluation itself imports nothing, opens nothing, compiles and
+    executes nothing (a module imported lazily inside a function would do all of that on the first transaction)"""
+    import subprocess
+    import sys as _sys
+    exprs = ['fuzzy("STARBUCKS")', 'fuzzy("STARBUX", 0.7)', 'contains("STAR")', 'regex("ST.R")', 'normalized("starbucks")', 'anyof("A", "STARBUCKS")', 'startswith("STAR")',
+             'extract("STORE (\\d+)")', 'split(" ", 1)', 'substring(0, 4)', 'trim(field.memo)', 'uppercase(field.memo)', 'regex_replace(description, "\\d+", "#")',
+             'strip_prefix(description, "STAR")', 'exists(field.memo)', 'month == 1 and weekday >= 0', 'date >= "2025-01-01"', 'sum(r.amount for r in orders) > 1',
+             'round(amount) + abs(amount)', 'len([r for r in orders]) == 1']
+    O.case(('fresh_process',))
+    p = subprocess.run([_sys.executable, '-c', FRESH, json.dumps(exprs)], capture_output=True, text=True, timeout=120)
+    if p.returncode != 0:
+        O.fail('C03.fresh_process_failed', {'evaluator': 'fresh_process'}, 'runs', p.stderr[-300:])
+        return
+    events = json.loads(p.stdout.strip().splitlines()[-1])
+    if events:
+        O.fail('C03.audit_event.first_evaluation_in_a_fresh_process', {'evaluator': 'fresh_process', 'expressions': exprs}, 'no import / open / exec / compile while evaluating',
+               events[:6], 'python -c: import tally, parse, install sys.addaudithook, evaluate')
+
+
 def main():
+    if O.witness and O.witness.get('evaluator') == 'fresh_process':
+        check_fresh_process()
+        O.finish()
     if O.witness:
         w = O.witness
         if w['evaluator'] == 'transaction':
@@ -221,6 +266,7 @@ def main():
         run_positions(e)
     for e in SECTION_EXPRS + ESCAPES[:40]:
         run_section(e)
+    check_fresh_process()
     O.sample({'evaluator': 'transaction', 'expr': '().__class__.__bases__'})
     O.finish()
 
